@@ -172,6 +172,10 @@ def build(d: Path, scn, out_name="out.nc", record_output=True, record_ibm=False,
         if rel["continuous"]:  # file times on the release-frequency grid anchored at the first
             r["step"] = first_step + ((r["step"] - first_step) // rel["freq"]) * rel["freq"]
         i, j = cells[r["cell"] % len(cells)]
+        if r.get("edge") == "east":  # a cell in the easternmost column of the valid region
+            imax_ = max(c[0] for c in cells)
+            col = [c for c in cells if c[0] == imax_]
+            i, j = col[r["cell"] % len(col)]
         x, y = i + r["fx"], j + r["fy"]
         z = r["zf"] * float(G["h"][j, i])
         t = start + scen.S(sgn * r["step"] * DT)
